@@ -1,5 +1,6 @@
 import Drv.Json
 import Model.Rev.Heads
+import Model.Rev.Memo
 import Spec.Rev
 namespace Drv.Rev
 open Lean Model.Rev
@@ -48,6 +49,13 @@ def handle (op : String) (j : Json) : Option Json :=
     match load (histOfJson j) (optsOfJson j) with
     | .error e => some (errJ e)
     | .ok m => some (obj [("ok", lmapJson m)])
+  | "rev.memo" =>
+    -- a sequence of reads on one RevisionMap object
+    let acc (s : String) : Accessor :=
+      if s == "heads" then .heads else if s == "bases" then .bases else if s == "realHeads" then .realHeads
+      else if s == "realBases" then .realBases else .revisionMap
+    let rs := Memo.run (histOfJson j) (optsOfJson j) {} ((getStrList j "reads").map acc)
+    some (Json.arr (rs.map (fun r => match r with | .ok l => obj [("ok", strs l)] | .error e => errJ e)).toArray)
   | "rev.cmd" =>
     match load (histOfJson j) (optsOfJson j) with
     | .error e => some (obj [("loadErr", Json.str e.name)])
